@@ -96,6 +96,28 @@ func (env *appEnv) install() {
 		env.mcBytes[item.Key] = append([]byte{}, item.Value...)
 		return nil
 	})
+	rt.Stub(ae+"/memcache.Add", func(ctx context.Context, item *memcache.Item) error {
+		if _, ok := env.mcBytes[item.Key]; ok {
+			return memcache.ErrNotStored
+		}
+		env.mcBytes[item.Key] = append([]byte{}, item.Value...)
+		return nil
+	})
+	rt.Stub(ae+"/memcache.Delete", func(ctx context.Context, key string) error {
+		_, okB := env.mcBytes[key]
+		_, okO := env.mcObj[key]
+		if !okB && !okO {
+			return memcache.ErrCacheMiss
+		}
+		delete(env.mcBytes, key)
+		delete(env.mcObj, key)
+		return nil
+	})
+	rt.Stub(ae+"/memcache.Flush", func(ctx context.Context) error {
+		env.mcBytes = map[string][]byte{}
+		env.mcObj = map[string]interface{}{}
+		return nil
+	})
 	rt.Stub(ae+"/memcache.Get", func(ctx context.Context, key string) (*memcache.Item, error) {
 		v, ok := env.mcBytes[key]
 		if !ok {
